@@ -53,7 +53,10 @@ use crate::abs::{self, bytes_from_json_array, bytes_to_json};
 
 const DECODE_STACK: usize = 2 << 20;
 const HARNESS_STACK: usize = 256 << 20;
-const ANSWER_TIMEOUT: Duration = Duration::from_secs(10);
+/// Per-input answer timeout; `VH_C08_TIMEOUT_SECS` overrides the default of 10 s (used to re-run inputs that timed out).
+fn answer_timeout() -> Duration {
+    Duration::from_secs(std::env::var("VH_C08_TIMEOUT_SECS").ok().and_then(|s| s.parse().ok()).unwrap_or(10))
+}
 const ERR_MAX_CHARS: usize = 200;
 /// Rows beyond this many are still deserialized and counted but not written out.
 const MAX_REPORTED_ROWS: usize = 100_000;
@@ -1115,7 +1118,7 @@ fn crash_stage(exe: &std::path::Path, line: &str) -> (Option<String>, Option<Str
         let _ = k.bury(true);
         return (None, None);
     }
-    let answered = k.answers.recv_timeout(ANSWER_TIMEOUT).is_ok();
+    let answered = k.answers.recv_timeout(answer_timeout()).is_ok();
     let (_, tail) = k.bury(true);
     if answered {
         return (Some("not reproduced".to_string()), None);
@@ -1284,7 +1287,7 @@ fn feeder(
                     note_from(&tail).unwrap_or_default())});
                 break (rec.to_string(), Outcome::Bad);
             }
-            match k.answers.recv_timeout(ANSWER_TIMEOUT) {
+            match k.answers.recv_timeout(answer_timeout()) {
                 Ok(answer) => {
                     let outcome = classify(&answer);
                     break (answer, outcome);
